@@ -9,7 +9,7 @@ import json
 from . import abstract as A
 from .. import values as V
 
-PERSIST_NONE = ('mem',)
+PERSIST_NONE = ('mem', 'memobj')
 
 
 class Disc(dict):
